@@ -962,6 +962,24 @@ impl FileScheduler {
     }
 }
 
+/// Verification hooks: compiled only with `--cfg lancedb_lance_verif`; add-only, no behaviour change.
+#[cfg(lancedb_lance_verif)]
+pub mod verif_hooks {
+    use super::*;
+
+    /// A copy of `fs` that splits at `max_iop_size` (the value is otherwise fixed per process by
+    /// `LANCE_MAX_IOP_SIZE`, see `DEFAULT_MAX_IOP_SIZE`)
+    pub fn with_max_iop_size(fs: &FileScheduler, max_iop_size: u64) -> FileScheduler {
+        FileScheduler {
+            reader: fs.reader.clone(),
+            root: fs.root.clone(),
+            block_size: fs.block_size,
+            base_priority: fs.base_priority,
+            max_iop_size,
+        }
+    }
+}
+
 #[cfg(test)]
 mod tests {
     use std::{collections::VecDeque, time::Duration};
